@@ -753,3 +753,184 @@ theorem stream_is_chain (abort : Bool) (tb : MsgTables) (path : Path) :
                   exact ih _ _ _ _ _ h n (by simp at hf; omega)
               · cases h
         · cases h
+
+/-- the chain lemma with an arbitrary tail: after the messages that decode on their own, the stream loop continues on what follows
+from the state the chain leaves -/
+theorem stream_chain_then (abort : Bool) (tb : MsgTables) (path : Path) (z : List Byte) :
+    ∀ (msgs : List (List Byte × List Byte)) (pos : Nat) (out : List (Nat × Event)) (scs : List SC) (pos' : Nat) (out' : List (Nat × Event)),
+    runMsgs abort tb path msgs pos out = some (pos', out') →
+    ∀ fuel, msgs.length < fuel →
+    ∃ scs', decodeStream abort tb path fuel ⟨flat msgs ++ z, pos, out, scs⟩ =
+      decodeStream abort tb path (fuel - msgs.length) ⟨z, pos', out', scs'⟩ := by
+  intro msgs
+  induction msgs with
+  | nil =>
+    intro pos out scs pos' out' h fuel hf
+    simp only [runMsgs, Option.some.injEq, Prod.mk.injEq] at h
+    obtain ⟨rfl, rfl⟩ := h
+    cases fuel with
+    | zero => simp at hf
+    | succ n => exact ⟨scs, by simp [flat]⟩
+  | cons cr rest ih =>
+    intro pos out scs pos' out' h fuel hf
+    obtain ⟨c, r⟩ := cr
+    cases fuel with
+    | zero => simp at hf
+    | succ n =>
+      simp only [runMsgs] at h
+      split at h
+      · cases h
+      · rename_i hne
+        simp only [Bool.or_eq_true, not_or, Bool.not_eq_true] at hne
+        obtain ⟨hc, hr⟩ := hne
+        split at h
+        · rename_i cv tc hcmd
+          split at h
+          · cases h
+          · rename_i htc
+            split at h
+            · cases h
+            · rename_i enc henc
+              split at h
+              · rename_i rv tr hrsp
+                split at h
+                · cases h
+                · rename_i htr
+                  have htc' : tc.inp = [] := by simpa using htc
+                  have htr' : tr.inp = [] := by simpa using htr
+                  -- the command inside the stream
+                  have hflat : flat ((c, r) :: rest) ++ z = c ++ (r ++ (flat rest ++ z)) := by simp [flat, List.append_assoc]
+                  have hs0 : (⟨flat ((c, r) :: rest) ++ z, pos, out, scs⟩ : St) =
+                      { shiftSt pos (r ++ (flat rest ++ z)) out (initSt c) with scs := scs } := by
+                    simp [shiftSt, initSt, hflat]
+                  have hC := decodeCommand_sh (d := pos) (y := r ++ (flat rest ++ z)) (pre := out) abort tb path (initSt c) (nd_ok hcmd)
+                  rw [hcmd] at hC
+                  rw [decodeStream]
+                  have hne0 : (flat ((c, r) :: rest) ++ z).isEmpty = false := by
+                    rw [hflat]; cases c with
+                    | nil => simp at hc
+                    | cons a t => rfl
+                  simp only [hne0, Bool.false_eq_true, if_false]
+                  rw [hs0, decodeCommand_scs, hC]
+                  simp only [shiftR, R.bind_ok, henc]
+                  have hne1 : (shiftSt pos (r ++ (flat rest ++ z)) out tc).inp.isEmpty = false := by
+                    simp only [shiftSt_inp, htc', List.nil_append]
+                    cases r with
+                    | nil => simp at hr
+                    | cons a t => rfl
+                  simp only [hne1, Bool.false_eq_true, if_false]
+                  -- the response
+                  have hs1 : shiftSt pos (r ++ (flat rest ++ z)) out tc =
+                      { shiftSt (tc.pos + pos) (flat rest ++ z) (out ++ shOut pos tc.out) (initSt r) with scs := tc.scs.map (shSC pos) } := by
+                    simp [shiftSt, initSt, htc', shOut]
+                  have hR := decodeResponse_sh (d := tc.pos + pos) (y := flat rest ++ z) (pre := out ++ shOut pos tc.out) abort tb
+                    ((objField cv "commandCode").bind vInt) enc path (initSt r) (nd_ok hrsp)
+                  rw [hrsp] at hR
+                  rw [hs1, decodeResponse_scs, hR]
+                  simp only [shiftR, R.bind_ok]
+                  -- the rest of the stream
+                  have hs2 : shiftSt (tc.pos + pos) (flat rest ++ z) (out ++ shOut pos tc.out) tr =
+                      ⟨flat rest ++ z, pos + tc.pos + tr.pos, out ++ shOut pos tc.out ++ shOut (pos + tc.pos) tr.out, tr.scs.map (shSC (tc.pos + pos))⟩ := by
+                    simp [shiftSt, htr', shOut, Nat.add_comm, Nat.add_left_comm]
+                  rw [hs2]
+                  obtain ⟨scs', hih⟩ := ih _ _ _ _ _ h n (by simp at hf; omega)
+                  exact ⟨scs', by rw [hih]; simp⟩
+              · cases h
+        · cases h
+
+theorem runMsgs_length (abort : Bool) (tb : MsgTables) (path : Path) : ∀ (ms : List (List Byte × List Byte)) p o p' o',
+    runMsgs abort tb path ms p o = some (p', o') → ms.length ≤ (flat ms).length := by
+  intro ms
+  induction ms with
+  | nil => intro p o p' o' _; simp
+  | cons cr rest ih =>
+    intro p o p' o' hh
+    obtain ⟨c, r⟩ := cr
+    simp only [runMsgs] at hh
+    split at hh
+    · cases hh
+    · rename_i hne
+      simp only [Bool.or_eq_true, not_or, Bool.not_eq_true] at hne
+      have hc : 0 < c.length := by
+        cases c with
+        | nil => simp at hne
+        | cons a t => simp
+      split at hh
+      · split at hh
+        · cases hh
+        · split at hh
+          · cases hh
+          · split at hh
+            · split at hh
+              · cases hh
+              · have := ih _ _ _ _ hh
+                simp only [flat, List.map_cons, List.flatten_cons, List.length_append, List.length_cons] at this ⊢
+                omega
+            · cases hh
+      · cases hh
+
+/-- **the first message whose own decode fails decides the stream (command)**: after messages that chain, a command whose decode on
+its own bytes ends in an error other than running out of input makes the stream decode end in that error (moved by the offset), with
+the chain's events followed by that command's events — whatever follows it -/
+theorem stream_fails_at_command (abort : Bool) (tb : MsgTables) (path : Path) (msgs : List (List Byte × List Byte)) (c y : List Byte)
+    (pos' : Nat) (out' : List (Nat × Event)) (h : runMsgs abort tb path msgs 0 [] = some (pos', out'))
+    (e : Err) (t : St) (hc : decodeCommand abort tb path (initSt c) = .error (e, t)) (hnd : e ≠ .depleted) (hne : c ≠ []) :
+    ∃ t', decodeStream abort tb path ((flat msgs ++ (c ++ y)).length + 1) (initSt (flat msgs ++ (c ++ y))) = .error (shErr pos' e, t') ∧
+      t'.out = out' ++ shOut pos' t.out := by
+  have hl := runMsgs_length abort tb path msgs 0 [] pos' out' h
+  obtain ⟨scs', hs⟩ := stream_chain_then abort tb path (c ++ y) msgs 0 [] [] pos' out' h ((flat msgs ++ (c ++ y)).length + 1) (by
+    simp only [List.length_append]; omega)
+  obtain ⟨n, hn⟩ : ∃ n, (flat msgs ++ (c ++ y)).length + 1 - msgs.length = n + 1 :=
+    ⟨(flat msgs ++ (c ++ y)).length - msgs.length, by simp only [List.length_append] at *; omega⟩
+  rw [show initSt (flat msgs ++ (c ++ y)) = ⟨flat msgs ++ (c ++ y), 0, [], []⟩ from rfl, hs, hn]
+  unfold decodeStream
+  have hne0 : (c ++ y).isEmpty = false := by cases c with | nil => exact absurd rfl hne | cons a t => rfl
+  simp only [hne0, Bool.false_eq_true, if_false]
+  have hs0 : (⟨c ++ y, pos', out', scs'⟩ : St) = { shiftSt pos' y out' (initSt c) with scs := scs' } := by simp [shiftSt, initSt]
+  have hC := decodeCommand_sh (d := pos') (y := y) (pre := out') abort tb path (initSt c)
+    (by intro t' h'; rw [hc] at h'; simp only [Except.error.injEq, Prod.mk.injEq] at h'; exact hnd h'.1)
+  rw [hc] at hC
+  rw [hs0, decodeCommand_scs, hC]
+  exact ⟨_, rfl, by simp [shiftSt, shOut, initSt]⟩
+
+/-- … and the same for a response: its command decodes on its own, the response's own decode (under that command's code and flag)
+ends in an error other than running out of input -/
+theorem stream_fails_at_response (abort : Bool) (tb : MsgTables) (path : Path) (msgs : List (List Byte × List Byte)) (c r y : List Byte)
+    (pos' : Nat) (out' : List (Nat × Event)) (h : runMsgs abort tb path msgs 0 [] = some (pos', out'))
+    (cv : Val) (tc : St) (hc : decodeCommand abort tb path (initSt c) = .ok (cv, tc)) (htc : tc.inp = []) (hne : c ≠ [])
+    (enc : Bool) (henc : cmdEncrypt tb cv = .ok enc)
+    (e : Err) (t : St) (hr : decodeResponse abort tb ((objField cv "commandCode").bind vInt) enc path (initSt r) = .error (e, t))
+    (hnd : e ≠ .depleted) (hner : r ≠ []) :
+    ∃ t', decodeStream abort tb path ((flat msgs ++ (c ++ (r ++ y))).length + 1) (initSt (flat msgs ++ (c ++ (r ++ y)))) =
+        .error (shErr (tc.pos + pos') e, t') ∧
+      t'.out = out' ++ shOut pos' tc.out ++ shOut (tc.pos + pos') t.out := by
+  have hl := runMsgs_length abort tb path msgs 0 [] pos' out' h
+  obtain ⟨scs', hs⟩ := stream_chain_then abort tb path (c ++ (r ++ y)) msgs 0 [] [] pos' out' h ((flat msgs ++ (c ++ (r ++ y))).length + 1) (by
+    simp only [List.length_append]; omega)
+  obtain ⟨n, hn⟩ : ∃ n, (flat msgs ++ (c ++ (r ++ y))).length + 1 - msgs.length = n + 1 :=
+    ⟨(flat msgs ++ (c ++ (r ++ y))).length - msgs.length, by simp only [List.length_append] at *; omega⟩
+  rw [show initSt (flat msgs ++ (c ++ (r ++ y))) = ⟨flat msgs ++ (c ++ (r ++ y)), 0, [], []⟩ from rfl, hs, hn]
+  unfold decodeStream
+  have hne0 : (c ++ (r ++ y)).isEmpty = false := by cases c with | nil => exact absurd rfl hne | cons a t => rfl
+  simp only [hne0, Bool.false_eq_true, if_false]
+  have hs0 : (⟨c ++ (r ++ y), pos', out', scs'⟩ : St) = { shiftSt pos' (r ++ y) out' (initSt c) with scs := scs' } := by
+    simp [shiftSt, initSt]
+  have hC := decodeCommand_sh (d := pos') (y := r ++ y) (pre := out') abort tb path (initSt c) (nd_ok hc)
+  rw [hc] at hC
+  rw [hs0, decodeCommand_scs, hC]
+  simp only [shiftR, R.bind_ok, henc]
+  have hne1 : (shiftSt pos' (r ++ y) out' tc).inp.isEmpty = false := by
+    simp only [shiftSt_inp, htc, List.nil_append]
+    cases r with
+    | nil => exact absurd rfl hner
+    | cons a t => rfl
+  simp only [hne1, Bool.false_eq_true, if_false]
+  have hs1 : shiftSt pos' (r ++ y) out' tc =
+      { shiftSt (tc.pos + pos') y (out' ++ shOut pos' tc.out) (initSt r) with scs := tc.scs.map (shSC pos') } := by
+    simp [shiftSt, initSt, htc, shOut]
+  have hR := decodeResponse_sh (d := tc.pos + pos') (y := y) (pre := out' ++ shOut pos' tc.out) abort tb
+    ((objField cv "commandCode").bind vInt) enc path (initSt r)
+    (by intro t' h'; rw [hr] at h'; simp only [Except.error.injEq, Prod.mk.injEq] at h'; exact hnd h'.1)
+  rw [hr] at hR
+  rw [hs1, decodeResponse_scs, hR]
+  exact ⟨_, rfl, by simp [shiftSt, shOut, initSt]⟩
